@@ -23,6 +23,8 @@ CLAIMED["C11"]=("on the unrecovered paths (Begin/EndBlock, wired epoch hooks, SD
   "call-graph reachability from unrecovered roots + structured-dominance facts (nil-after-error, division guards) over type-checked AST", "4/C11")
 CLAIMED["C17"]=("single live minter (exomint hook: once, configured identifier, non-zero reward, coins forwarded); AllocateTokens moves the whole fee-collector balance before any exit; remainder-accumulator booking in each allocation function and the commission/shared split; truncating portions; distribution hook before mint hook",
   "call-graph reachability for who-may-mint + dataflow-shape rules (remainder accumulator) over type-checked AST", "4/C17")
+CLAIMED["C12"]=("strict cross-multiplied threshold without division; prices assigned only behind the threshold; sealed workers rejected and results memoised; expected-next-round-id guard and +1 advance; writer set of the price family; EndBlock seal/grow/clear/prepare wiring with token-id vs feeder-id roles; retention guard class; median sorts first",
+  "normal-form comparison rules, structured-dominance facts and role-typed id flow over type-checked AST; store effect summaries for the writer set", "4/C12")
 NA={}
 def main():
     checks=[]
